@@ -95,11 +95,11 @@ example : Gen.nlDelSites.length ≥ 10 := by decide +kernel
 
 open RegionNl in
 /-- **the lines of a region survive `newline_del_between()`**: whatever stretch of the chunk list the loop walks over, whatever
-    `IsSamePreproc` answers, every CT_IGNORED chunk and every newline chunk that touches one is still there afterwards, in order;
-    only the COUNT of such a newline chunk may change (see the witness below) -/
+    `IsSamePreproc` answers, every CT_IGNORED chunk and every newline chunk that touches one is still there afterwards, in order
+    and WITH ITS COUNT (the blank lines at the start and at the end of a region are kept) -/
 theorem C07_del_between_keeps_region_lines (samePP : Nat → Bool) (l : List K) (i : Nat) (prev0 prevC : Option K)
     (h : prev0 = some K.ign → prevC = some K.ign) :
-    (keepProtected (delWalk samePP i prevC (markFrom prev0 l))).map shape = (keepProtected (markFrom prev0 l)).map shape := by
+    keepProtected (delWalk samePP i prevC (markFrom prev0 l)) = keepProtected (markFrom prev0 l) := by
   induction l generalizing i prev0 prevC with
   | nil => simp [markFrom, delWalk, keepProtected]
   | cons c rest ih =>
@@ -128,9 +128,23 @@ theorem C07_del_between_keeps_region_lines (samePP : Nat → Bool) (l : List K) 
         · have := ih (i + 1) (some (K.nl n)) (some (K.nl n)) (by intro hh; cases hh)
           simp only [keepProtected, List.filter_cons] at this ⊢
           split <;> simp_all
-      · have := ih (i + 1) (some (K.nl n)) (some (if n > 1 then K.nl 1 else K.nl n)) (by intro hh; cases hh)
+      · -- next to a comment: the count goes to 1 only if the chunk touches no region line
+        have := ih (i + 1) (some (K.nl n))
+          (some (if n > 1 ∧ prevC ≠ some K.ign ∧ rest.head? ≠ some K.ign then K.nl 1 else K.nl n)) (by intro hh; cases hh)
         simp only [keepProtected, List.filter_cons] at this ⊢
-        split <;> split <;> simp_all [shape]
+        by_cases hp : protectedAt prev0 (K.nl n) rest.head? = true
+        · have hc : (if n > 1 ∧ prevC ≠ some K.ign ∧ rest.head? ≠ some K.ign then K.nl 1 else K.nl n) = K.nl n := by
+            simp only [protectedAt, K.isNl, Bool.true_and, Bool.or_eq_true, decide_eq_true_eq] at hp
+            rcases hp with hp | hp
+            · simp at hp
+            · rcases hp with hp | hp
+              · simp [h hp]
+              · simp [hp]
+          simp only [hp, if_true, List.map_cons, hc]
+          simp only [hc] at this
+          rw [this]
+        · simp only [hp, Bool.false_eq_true, if_false]
+          exact this
     | ign =>
       have := ih (i + 1) (some K.ign) (some K.ign) (by intro _; rfl)
       simp only [markFrom, delWalk, keepProtected, List.filter_cons] at this ⊢
@@ -155,11 +169,15 @@ example : (delWalk (fun _ => true) 0 none (markFrom none [K.tok, K.nl 1, K.tok, 
     = [K.tok, K.tok, K.nl 1, K.ign, K.nl 1, K.ign, K.nl 2, K.ign, K.nl 1, K.tok] := by decide
 
 open RegionNl in
-/-- the count is not protected: a blank line at the end of a region, directly in front of a comment such as the enable marker, is
-    reduced to a plain line break by the comment branch of `newline_del_between()` (the listed known finding
-    region-blank-lines-removed) -/
+/-- before the repair of the comment branch the count was not protected: a blank line at the end of a region, directly in front
+    of a comment such as the enable marker (or one at its start, directly after the disable marker), was reduced to a plain line
+    break by `newline_del_between()`; the repaired loop keeps it -/
 theorem C07_region_blank_before_comment_witness :
-    (delWalk (fun _ => true) 0 none (markFrom none [K.ign, K.nl 2, K.cmt])).map Prod.fst = [K.ign, K.nl 1, K.cmt] := by decide
+    (delWalkOld (fun _ => true) 0 none (markFrom none [K.ign, K.nl 2, K.cmt])).map Prod.fst = [K.ign, K.nl 1, K.cmt] ∧
+    (delWalkOld (fun _ => true) 0 none (markFrom none [K.cmt, K.nl 2, K.ign])).map Prod.fst = [K.cmt, K.nl 1, K.ign] ∧
+    (delWalk (fun _ => true) 0 none (markFrom none [K.ign, K.nl 2, K.cmt])).map Prod.fst = [K.ign, K.nl 2, K.cmt] ∧
+    (delWalk (fun _ => true) 0 none (markFrom none [K.cmt, K.nl 2, K.ign])).map Prod.fst = [K.cmt, K.nl 2, K.ign] ∧
+    (delWalk (fun _ => true) 0 none (markFrom none [K.tok, K.nl 3, K.cmt])).map Prod.fst = [K.tok, K.nl 1, K.cmt] := by decide
 
 open RegionNl in
 /-- before fix 9ccb421 the guard did not look for CT_IGNORED: the same walk removed the line breaks between the lines of a region -/
